@@ -173,7 +173,7 @@ Immutable == \A f \in UsedField : ver[BufOfField(f)] = fields[f].snap
 Protected == (LockClearsNumpyFlag /\ ~AllowEarlierViews) =>
                 \A f \in UsedField : \A a \in UsedArr : arrs[a].buf = BufOfField(f) => ~arrs[a].w
 \* whatever aliases existed before: the array object / wrapper a field holds (for Field(dom, arr) that IS the source array) is protected
-HandleProtected == LockClearsNumpyFlag => \A f \in UsedField : ~wraps[fields[f].wrap].w /\ ~arrs[wraps[fields[f].wrap].arr].w
+HandleProtected == \A f \in UsedField : ~wraps[fields[f].wrap].w /\ ~arrs[wraps[fields[f].wrap].arr].w
 TypeOK == /\ \A a \in UsedArr : arrs[a].buf \in 1..MaxArr
           /\ \A x \in UsedWrap : wraps[x].arr \in UsedArr
           /\ \A f \in UsedField : fields[f].wrap \in UsedWrap
